@@ -192,17 +192,35 @@ func (n *Namespace) add(c *serverConn, auth json.RawMessage) (*serverSocket, err
 	}
 
 	if n.server.connectionStateRecovery.Enabled {
-		session, ok := n.adapter.RestoreSession(
-			adapter.PrivateSessionID(authRecoveryFields.SessionID),
-			authRecoveryFields.Offset,
+		var (
+			pid      = adapter.PrivateSessionID(authRecoveryFields.SessionID)
+			admitted = false
 		)
-		if ok {
+		restore := func(session *adapter.SessionToPersist) {
 			socket, err = newServerSocket(n.server, c, n, c.parser, session)
-			if err != nil {
-				return nil, err
+			if err == nil && !n.server.connectionStateRecovery.UseMiddlewares {
+				admitted = true
+				err = n.doConnect(socket)
 			}
+		}
+		if restorer, ok := n.adapter.(adapter.SessionRestorer); ok {
+			// The socket is admitted before any other packet is broadcast. Otherwise, a packet that
+			// is broadcast right now is not one of the missed packets (they are already determined),
+			// and it is not sent to this socket either (the namespace doesn't know the socket yet).
+			ok = restorer.RestoreSessionFunc(pid, authRecoveryFields.Offset, restore)
+			if !ok {
+				n.debug.Log("`session` is nil")
+			}
+		} else if session, ok := n.adapter.RestoreSession(pid, authRecoveryFields.Offset); ok {
+			restore(session)
 		} else {
 			n.debug.Log("`session` is nil")
+		}
+		if admitted {
+			return socket, err
+		}
+		if err != nil {
+			return nil, err
 		}
 	}
 
@@ -213,10 +231,6 @@ func (n *Namespace) add(c *serverConn, auth json.RawMessage) (*serverSocket, err
 		if err != nil {
 			return nil, err
 		}
-	}
-
-	if n.server.connectionStateRecovery.Enabled && !n.server.connectionStateRecovery.UseMiddlewares && socket.Recovered() {
-		return socket, n.doConnect(socket)
 	}
 
 	err = n.runMiddlewares(socket, handshake)
